@@ -230,3 +230,30 @@ def expand(fnode, expr, max_depth=8, helpers=False):
     _n4(holder)
     ast.fix_missing_locations(holder)
     return holder.body
+
+
+def explicit_keywords(fnode, call):
+    """Keywords of `call` with `**name` resolved where `name` is a local bound exactly once to a dict display with constant string keys
+    (or `dict(k=v, ...)`) and never stored into or passed to a mutating method afterwards.  None when a `**` argument cannot be resolved."""
+    out = []
+    for kw in call.keywords:
+        if kw.arg is not None:
+            out.append((kw.arg, kw.value))
+            continue
+        v = kw.value
+        if isinstance(v, ast.Name):
+            binds = [s for s in own_scope(fnode) if isinstance(s, ast.Assign) and len(s.targets) == 1 and isinstance(s.targets[0], ast.Name) and s.targets[0].id == v.id]
+            other_stores = [x for x in own_scope(fnode) if (isinstance(x, ast.Name) and x.id == v.id and isinstance(x.ctx, (ast.Store, ast.Del)))
+                            or (isinstance(x, (ast.Subscript, ast.Attribute)) and isinstance(x.ctx, (ast.Store, ast.Del)) and isinstance(x.value, ast.Name) and x.value.id == v.id)
+                            or (isinstance(x, ast.Call) and isinstance(x.func, ast.Attribute) and isinstance(x.func.value, ast.Name) and x.func.value.id == v.id
+                                and x.func.attr in ("update", "pop", "setdefault", "clear", "popitem"))]
+            if len(binds) != 1 or len(other_stores) != 1:
+                return None
+            v = binds[0].value
+        if isinstance(v, ast.Dict) and all(isinstance(k, ast.Constant) and isinstance(k.value, str) for k in v.keys):
+            out.extend((k.value, x) for k, x in zip(v.keys, v.values))
+        elif isinstance(v, ast.Call) and isinstance(v.func, ast.Name) and v.func.id == "dict" and not v.args and all(k.arg is not None for k in v.keywords):
+            out.extend((k.arg, k.value) for k in v.keywords)
+        else:
+            return None
+    return out
